@@ -50,6 +50,11 @@ type BinData struct {
 // inputs carries the failure marker '!': nodes that start failing after they
 // have succeeded are part of the property's histories too.
 func outcome(id int, s string) (string, error) {
+	if strings.Contains(s[strings.IndexAny(s, "([")+1:], "?") {
+		// the marker '?' makes the processor panic (the edit server recovers
+		// around every artifact request and keeps serving)
+		panic(fmt.Errorf("node %d cannot handle its input", id))
+	}
 	if strings.Contains(s[strings.IndexAny(s, "([")+1:], "!") {
 		return fmt.Sprintf("n%d!failed", id), fmt.Errorf("node %d rejects its input", id)
 	}
@@ -174,6 +179,25 @@ func (w *world) eval(i int) string {
 	return v
 }
 
+// panics: does evaluating node i from scratch panic (a source in its cone
+// carries the marker '?')?
+func (w *world) panics(i int) bool {
+	n := w.nodes[i]
+	for _, r := range append(append([]int{}, n.scalar...), n.arr...) {
+		if r == none {
+			continue
+		}
+		if r < 0 {
+			if strings.Contains(w.srcVal[-r-1], "?") {
+				return true
+			}
+		} else if w.panics(r) {
+			return true
+		}
+	}
+	return false
+}
+
 // dependsOn: does node i transitively depend on ref target t?
 func (w *world) dependsOn(i, t int) bool {
 	n := w.nodes[i]
@@ -281,9 +305,13 @@ func (Scenario) Run(c choice.Chooser, opt sim.Options) (res sim.Result) {
 		k := c.Intn("g:srckind", 2)
 		w.srcKind = append(w.srcKind, k)
 		v := fmt.Sprintf("s%d.0", s)
+		if c.Intn("g:twin", 3) == 2 {
+			// look-alike sources: same name, same value, same version
+			v = []string{"a", "b"}[c.Intn("g:twinval", 2)]
+		}
 		w.srcVal = append(w.srcVal, v)
 		if k == 0 {
-			w.params = append(w.params, &parameter.Value[string]{Name: fmt.Sprintf("S%d", s), DefaultValue: v})
+			w.params = append(w.params, &parameter.Value[string]{Name: "S", DefaultValue: v})
 			w.values = append(w.values, nil)
 		} else {
 			w.params = append(w.params, nil)
@@ -391,15 +419,34 @@ func (Scenario) Run(c choice.Chooser, opt sim.Options) (res sim.Result) {
 		case 0: // read a node
 			i := c.Intn("op:node", nn)
 			what = fmt.Sprintf("read n%d", i)
-			want := w.eval(i)
-			got := w.val[i]()
+			mustPanic := w.panics(i)
+			want := ""
+			if !mustPanic {
+				want = w.eval(i)
+			}
+			got, panicked := "", false
+			func() {
+				defer func() {
+					if recover() != nil {
+						panicked = true
+					}
+				}()
+				got = w.val[i]()
+			}()
+			if panicked {
+				got = "PANIC"
+				res.Count("fault:processor-panics", 1)
+			}
 			hist = append(hist, fmt.Sprintf("%s -> %s executed=%v", what, got, w.log))
 			res.Count("op:read", 1)
+			if panicked != mustPanic {
+				return violate("stale-read", fmt.Sprintf("%s: panicked=%v, but evaluating the current graph from scratch panics=%v", what, panicked, mustPanic))
+			}
 			if changedSinceRead && w.depth(i) >= 2 {
 				nontrivial = true
 			}
 			changedSinceRead = false
-			if got != want {
+			if !panicked && got != want {
 				return violate("stale-read", fmt.Sprintf("%s returned %q, evaluating the current graph from scratch gives %q", what, got, want))
 			}
 			seen := map[int]bool{}
@@ -413,6 +460,11 @@ func (Scenario) Run(c choice.Chooser, opt sim.Options) (res sim.Result) {
 				}
 			}
 			for x := range seen {
+				if w.panics(x) {
+					// started, aborted by the panic: not an execution, the
+					// node stays due
+					continue
+				}
 				w.nodes[x].dirty = false
 				w.nodes[x].execs++
 			}
@@ -426,9 +478,15 @@ func (Scenario) Run(c choice.Chooser, opt sim.Options) (res sim.Result) {
 			v := w.srcVal[s]
 			if !same {
 				v = fmt.Sprintf("s%d.%d", s, serial)
-				if c.Intn("op:poison", 8) == 7 {
+				switch c.Intn("op:poison", 12) {
+				case 10:
 					v += "!" // downstream processors fail on this value
 					res.Count("fault:processor-returns-error", 1)
+				case 11:
+					v += "?" // downstream processors panic on this value
+				case 8, 9:
+					// a value another source may hold as well (look-alikes)
+					v = []string{"a", "b"}[c.Intn("op:twinval", 2)]
 				}
 				serial++
 			}
